@@ -33,6 +33,7 @@ type peerSess struct {
 	ln     net.Listener
 	cancel context.CancelFunc
 	ids    *idAlloc
+	early  *sentFrame // late-write: the request sent the moment READY had been read
 }
 
 func (s *peerSess) close() {
@@ -434,30 +435,76 @@ func unjudgedSplit(s *peerSess, p int, f func() string) {
 // set-up 3: raw peer as client <-> library server
 
 func openPeerClient(k *kase, optionsFirst bool) *peerSess {
+	return openPeerClientWith(k, optionsFirst, nil)
+}
+
+// openPeerClientWith: mh != nil registers the marker handler on the server and leaves Receive
+// uncalled after the handshake (scenario burst). Scenario late-write: the server connection is made
+// over a net.Conn whose first writes return late (VerifNewServerConn), see burst.go.
+func openPeerClientWith(k *kase, optionsFirst bool, mh *markerHandler) *peerSess {
 	k.stage("peer-client: connect")
 	v := k.spec.Ver
 	ctx, cancel := context.WithCancel(context.Background())
 	s := &peerSess{k: k, cancel: cancel, ids: newIDs(v)}
-	s.srv = client.NewCqlServer("127.0.0.1:0", k.creds())
-	if err := s.srv.Start(ctx); err != nil {
-		k.inconclusive("harness/server-start-failed")
-		cancel()
-		return nil
-	}
-	pc, err := net.DialTimeout("tcp", s.srv.VerifAddr().String(), waitT)
-	if err != nil {
-		k.inconclusive("harness/dial-failed")
-		s.close()
-		return nil
+	var pc net.Conn
+	var sc *client.CqlServerConnection
+	var late *lateWriteConn
+	if k.spec.Scenario == "late-write" {
+		ln, err := net.Listen("tcp", "127.0.0.1:0")
+		if err != nil {
+			k.inconclusive("harness/listen-failed")
+			cancel()
+			return nil
+		}
+		s.ln = ln
+		if pc, err = net.DialTimeout("tcp", ln.Addr().String(), waitT); err != nil {
+			k.inconclusive("harness/dial-failed")
+			s.close()
+			return nil
+		}
+		ln.(*net.TCPListener).SetDeadline(time.Now().Add(waitT))
+		srvSide, err := ln.Accept()
+		if err != nil {
+			k.inconclusive("harness/accept-failed")
+			pc.Close()
+			s.close()
+			return nil
+		}
+		late = &lateWriteConn{Conn: srvSide, delay: 30 * time.Millisecond}
+		late.armed.Store(14)
+		if sc, err = client.VerifNewServerConn(late, ctx, k.creds(), client.DefaultMaxInFlight, client.DefaultIdleTimeout, nil, nil, nil); err != nil {
+			k.inconclusive("harness/server-conn-failed")
+			pc.Close()
+			srvSide.Close()
+			s.close()
+			return nil
+		}
+	} else {
+		s.srv = client.NewCqlServer("127.0.0.1:0", k.creds())
+		if mh != nil {
+			s.srv.RequestHandlers = []client.RequestHandler{mh.handle}
+		}
+		if err := s.srv.Start(ctx); err != nil {
+			k.inconclusive("harness/server-start-failed")
+			cancel()
+			return nil
+		}
+		var err error
+		if pc, err = net.DialTimeout("tcp", s.srv.VerifAddr().String(), waitT); err != nil {
+			k.inconclusive("harness/dial-failed")
+			s.close()
+			return nil
+		}
+		if err, to := withTimeout(func() error { var e error; sc, e = s.srv.AcceptAny(); return e }); to || err != nil {
+			k.inconclusive("harness/accept-failed")
+			pc.Close()
+			s.close()
+			return nil
+		}
 	}
 	s.w = &wire{k: k, c: pc, ver: v, comp: "none", r: k.r, dir: "response"}
 	w := s.w
-	var sc *client.CqlServerConnection
-	if err, to := withTimeout(func() error { var e error; sc, e = s.srv.AcceptAny(); return e }); to || err != nil {
-		k.inconclusive("harness/accept-failed")
-		s.close()
-		return nil
-	}
+	var err error
 	s.ls = &libServer{k: k, sc: sc}
 	k.stage("peer-client: handshake (options first: %v)", optionsFirst)
 	hs := make(chan error, 1)
@@ -578,6 +625,16 @@ func openPeerClient(k *kase, optionsFirst bool) *peerSess {
 	if v.ModernFraming() {
 		w.modern = true
 	}
+	if late != nil && !k.spec.Auth {
+		// a pipelining client: its first request segment leaves the moment READY has been read
+		e := smallFrame(v, false, s.ids.get(), 2, k.r)
+		if _, err := w.sendEnvelopes([][]byte{w.encode(e.abs, false)}, segPlan{Mode: "single", LZ4: s.lz4Mode()}); err != nil {
+			k.inconclusive("harness/peer-write-failed")
+			s.close()
+			return nil
+		}
+		s.early = &e
+	}
 	if k.spec.Auth {
 		ar := &ref.Frame{Version: v, Stream: stream, Msg: &ref.AuthResponse{Token: ref.B(authToken(k.creds()))}}
 		if _, err := w.sendEnvelopes([][]byte{w.encode(ar, k.r.Bool())}, segPlan{Mode: "single"}); err != nil {
@@ -612,7 +669,12 @@ func openPeerClient(k *kase, optionsFirst bool) *peerSess {
 		return nil
 	}
 	k.count("handshakes/"+k.cfg, 1)
-	s.ls.startPump()
+	if late != nil {
+		k.count("late_write_server_writes_that_returned_late", late.late.Load())
+	}
+	if mh == nil {
+		s.ls.startPump()
+	}
 	return s
 }
 
@@ -745,15 +807,35 @@ func runPeerClient(k *kase) {
 		}
 		return
 	}
-	s := openPeerClient(k, k.r.Bool())
+	if k.spec.Scenario == "burst" {
+		mh := newMarkerHandler()
+		if s := openPeerClientWith(k, k.r.Bool(), mh); s != nil {
+			defer s.close()
+			peerBurst(k, s, mh)
+		}
+		return
+	}
+	s := openPeerClient(k, k.spec.Scenario != "late-write" && k.r.Bool())
 	if s == nil {
 		return
 	}
 	defer s.close()
+	if k.spec.Scenario == "late-write" {
+		// the handshake and the first segments behind it are the subject; a few frames follow at once
+		k.alias = "frames-short"
+		if s.early != nil {
+			k.stage("peer-client: late-write: the request sent right behind READY")
+			bar := smallFrame(k.spec.Ver, false, s.ids.get(), 0, k.r)
+			s.w.sendEnvelopes([][]byte{s.w.encode(bar.abs, false)}, segPlan{Mode: "single", LZ4: "fallback"})
+			if !s.ls.judgeRequests([]sentFrame{*s.early}, bar, "first segment, sent the moment READY had been read", "late-write") {
+				return
+			}
+		}
+	}
 	if k.spec.Scenario == "startup-spec-names" {
 		// the handshake went through with the specification's spelling; a few frames to see the compression at work
 		k.count("startup_spec_names_understood", 1)
-		k.spec.Scenario = "frames-short"
+		k.alias = "frames-short"
 	}
 	runScenario(k, s, true)
 }
@@ -840,10 +922,14 @@ func runScenario(k *kase, s *peerSess, peerIsClient bool) {
 		}
 		return out
 	}
-	switch k.spec.Scenario {
+	scenario := k.spec.Scenario
+	if k.alias != "" {
+		scenario = k.alias
+	}
+	switch scenario {
 	case "frames", "frames-short":
 		n := 50
-		if k.spec.Scenario == "frames-short" {
+		if scenario == "frames-short" {
 			n = 10
 		}
 		for sent, b := 0, 1; sent < n; b++ {
